@@ -209,6 +209,45 @@ func sessionC14(r *vk.Run, rng *rand.Rand, idx int) {
 		default:
 			// a burst of mouse events at random coordinates
 			var b []byte
+			if rng.Intn(2) == 0 {
+				// a drag: press (often in one of the right-most columns, where a scrollbar is or would be),
+				// move with the button held - also out of the window - and release
+				x := 1 + rng.Intn(cols+1)
+				if rng.Intn(3) > 0 {
+					x = cols - rng.Intn(7)
+					if x < 1 {
+						x = 1
+					}
+				}
+				y := 1 + rng.Intn(rows+1)
+				b = append(b, []byte(fmt.Sprintf("\x1b[<0;%d;%dM", x, y))...)
+				for m := 0; m < 1+rng.Intn(5); m++ {
+					switch rng.Intn(4) {
+					case 0:
+						y = []int{1, rows, rows - 1, rows + 1, 2}[rng.Intn(5)]
+					case 1:
+						y += rng.Intn(7) - 3
+					case 2:
+						x += rng.Intn(5) - 2
+					default:
+						x, y = 1+rng.Intn(cols+2), 1+rng.Intn(rows+2)
+					}
+					if x < 1 {
+						x = 1
+					}
+					if y < 1 {
+						y = 1
+					}
+					b = append(b, []byte(fmt.Sprintf("\x1b[<32;%d;%dM", x, y))...)
+				}
+				if rng.Intn(5) > 0 {
+					b = append(b, []byte(fmt.Sprintf("\x1b[<0;%d;%dm", x, y))...)
+				}
+				s.SendRaw(b)
+				hadRaw = true
+				hist = append(hist, fmt.Sprintf("DRAG %q", b))
+				break
+			}
 			for m := 0; m < 1+rng.Intn(5); m++ {
 				btn := []int{0, 0, 2, 64, 65, 32, 35}[rng.Intn(7)]
 				x, y := 1+rng.Intn(cols+3), 1+rng.Intn(rows+3)
